@@ -458,7 +458,14 @@ void check_homogeneous(World& w, const char* what, const Scope_t& scope, const S
          catch (const std::logic_error&) {
          }
       }
-      auto ov = scope[*nm];
+      Optional<Overload> ov;
+      try {
+         ov = scope[*nm];
+      }
+      catch (const std::logic_error&) {
+         w.findings.count("lookups_refused_unnamed_member");   // another member has no name yet (e.g. a base of unnamed class type)
+         continue;
+      }
       if (!ov.is_valid()) {
          w.findings.fail(std::string("C07:lookup-missed:") + what, "a declared name is not found");
          continue;
@@ -476,7 +483,14 @@ void check_homogeneous(World& w, const char* what, const Scope_t& scope, const S
          catch (const std::logic_error&) {
          }
       }
-      if (scope[*nm].is_valid() != declared) w.findings.fail(std::string(declared ? "C07:lookup-missed:" : "C07:lookup-phantom:") + what, "lookup disagrees with the members");
+      bool found = false;
+      try {
+         found = scope[*nm].is_valid();
+      }
+      catch (const std::logic_error&) {
+         continue;
+      }
+      if (found != declared) w.findings.fail(std::string(declared ? "C07:lookup-missed:" : "C07:lookup-phantom:") + what, "lookup disagrees with the members");
       if (!declared) w.findings.count("failed_lookups");
    }
 }
@@ -750,14 +764,23 @@ struct DerivedChecker : Constant_visitor<No_op> {
    void visit(const Product& n) final
    {
       seq_helpers("Product", n);
-      for (std::size_t i = 0; i < n.size(); ++i)
-         if (!physically_same(n[i], *n.elements().position(i))) w.findings.fail("C15:index:Product", "operator[] differs from elements().position()");
+      for (std::size_t i = 0; i < n.size(); ++i) {
+         // an element may legitimately refuse (a member without a type): then both routes must refuse
+         Val a, b;
+         try { a = Val::node(n[i]); } catch (const std::logic_error&) { a = Val::throws(); }
+         try { b = Val::node(*n.elements().position(i)); } catch (const std::logic_error&) { b = Val::throws(); }
+         if (!(a == b)) w.findings.fail("C15:index:Product", "operator[] differs from elements().position()");
+      }
    }
    void visit(const Sum& n) final
    {
       seq_helpers("Sum", n);
-      for (std::size_t i = 0; i < n.size(); ++i)
-         if (!physically_same(n[i], *n.elements().position(i))) w.findings.fail("C15:index:Sum", "operator[] differs from elements().position()");
+      for (std::size_t i = 0; i < n.size(); ++i) {
+         Val a, b;
+         try { a = Val::node(n[i]); } catch (const std::logic_error&) { a = Val::throws(); }
+         try { b = Val::node(*n.elements().position(i)); } catch (const std::logic_error&) { b = Val::throws(); }
+         if (!(a == b)) w.findings.fail("C15:index:Sum", "operator[] differs from elements().position()");
+      }
    }
    void visit(const Expr_list& n) final { seq_helpers("Expr_list", n); }
    void visit(const Scope& n) final
@@ -910,7 +933,9 @@ void oracle_stability(World& w, const Snapshot& before, bool growth_allowed, con
             w.findings.count("legitimate_growth_seen");
             continue;
          }
+         // scalars derived from a grown sequence: size(), and a block becoming a try-block with its first handler
          if (growth_allowed && old[i].name == "size" && old[i].val.kind == Val::Num && now[i].val.kind == Val::Num && now[i].val.num > old[i].val.num) continue;
+         if (growth_allowed && old[i].name == "try_block") continue;
          w.findings.fail(std::string("C05:snapshot-changed:") + cat + "." + old[i].name, std::string(when) + ": was " + old[i].val.show() + " now " + now[i].val.show());
       }
       w.findings.count("reobserved");
